@@ -18,9 +18,7 @@ ZConfig log message formatting support.
 
 import inspect
 import logging
-import os
 import string
-import threading
 
 
 class PercentStyle:
@@ -102,10 +100,11 @@ _log_format_variables = {
     'asctime': 'atime',
     'msecs': 1.1,
     'relativeCreated': 1.1,
-    'thread': threading.get_ident(),
     'message': 'amessage',
-    'process': os.getpid(),
     'funcName': 'fname',
+    # 'thread' and 'process' are those of the sample record itself: real
+    # identifiers, or None when the application has switched them off
+    # (logging.logThreads, logging.logProcesses)
 }
 
 
